@@ -53,3 +53,29 @@ func init() {
 		return &Result{}
 	}, nil)
 }
+
+// development aid: only the Scope/resolveExprs unit correspondence
+func init() {
+	register("tool-c01-unit2", func(ctx *Ctx) *Result {
+		res := &Result{}
+		defer c01ScratchCleanup()
+		cross := c01UnitScope(ctx, res)
+		if res.Broken == "" {
+			cross = append(cross, c01UnitResolve(ctx, res)...)
+		}
+		if res.Broken == "" {
+			c01CrossCheckExtraction(ctx, res, cross)
+		}
+		c01ScopeFloors(res)
+		return res
+	}, nil)
+}
+
+func init() {
+	register("tool-c01-dict", func(ctx *Ctx) *Result {
+		res := &Result{}
+		defer c01ScratchCleanup()
+		c01RunDict(ctx, res)
+		return res
+	}, nil)
+}
